@@ -70,7 +70,7 @@ def vector_configs(tier, seed=1):
 def heap_configs(tier, seed=1):
     if tier == 'quick':
         return [mk('g++', 'c++11', 'none'), mk('g++', 'c++17', 'none'), mk('g++', 'c++11', 'SSE2'),
-                mk('clang++', 'c++20', 'none', san=True), mk('clang++', 'c++14', 'none', san=True)]
+                mk('clang++', 'c++20', 'none', opt='-O1', san=True), mk('clang++', 'c++14', 'none', opt='-O1', san=True)]
     out = []
     for cxx in ('g++', 'clang++'):
         for std in ('c++11', 'c++14', 'c++17', 'c++20'):
@@ -79,5 +79,5 @@ def heap_configs(tier, seed=1):
                     if san and cxx == 'g++':
                         continue
                     k = _knob('%s/%s/%s/%d' % (cxx, std, ms, seed), 4)
-                    out.append(mk(cxx, std, ms, opt='-O0' if k == 0 else '-O2', san=san))
+                    out.append(mk(cxx, std, ms, opt=('-O0' if k == 0 else '-O1') if san else ('-O0' if k == 0 else '-O2'), san=san))
     return out
